@@ -31,7 +31,8 @@ func scanRaceLogs(total *mon.Result, base string) {
 			}
 			sig, inRepo, harnessOnly := raceSignature(blk)
 			if harnessOnly {
-				total.Violate(mon.Violation{Signature: "C18/harness-race/" + sig, Detail: "race with both accesses in harness code (harness bug)\n" + blk, Witness: blk})
+				total.Obs("harness_only_race_reports", 1)
+				total.Break("data race with both accesses in harness code (a harness bug, not a property violation): " + sig + "\n" + blk)
 				continue
 			}
 			if !inRepo {
@@ -50,6 +51,8 @@ func raceSignature(blk string) (sig string, inRepo bool, harnessOnly bool) {
 		kind string
 		top  string // top-most repo frame
 		any  string // top-most frame at all
+		harness      bool
+		firstHarness string
 	}
 	var accs []acc
 	cur := -1
@@ -71,6 +74,12 @@ func raceSignature(blk string) (sig string, inRepo bool, harnessOnly bool) {
 		if cur >= 0 {
 			if m := raceFuncRe.FindStringSubmatch(l); m != nil && !strings.Contains(l, ".go:") {
 				fn := m[1]
+				if strings.HasPrefix(fn, "verif/") || strings.HasPrefix(fn, "main.") {
+					accs[cur].harness = true
+					if accs[cur].firstHarness == "" {
+						accs[cur].firstHarness = fn
+					}
+				}
 				if accs[cur].any == "" {
 					accs[cur].any = fn
 				}
@@ -87,9 +96,11 @@ func raceSignature(blk string) (sig string, inRepo bool, harnessOnly bool) {
 			inRepo = true
 			parts = append(parts, a.top+"|"+a.kind)
 		} else {
-			parts = append(parts, a.any+"|"+a.kind)
-			if strings.HasPrefix(a.any, "verif/") || strings.HasPrefix(a.any, "main.") {
+			if a.harness {
+				parts = append(parts, a.firstHarness+"|"+a.kind)
 				harness++
+			} else {
+				parts = append(parts, a.any+"|"+a.kind)
 			}
 		}
 	}
